@@ -22,6 +22,7 @@ func init() {
 		PromiseSnapshot(c, "R-SNAPSHOT")
 		AtomicCell(c, "R-ATOMIC")
 		StateKind(c, "R-STATEKIND", c.Pkg("fp"))
+		OneDispatch(c, "R-ONEDISPATCH", c.Pkg("fp"))
 	})
 }
 
